@@ -41,6 +41,7 @@ type sthread struct {
 }
 
 type sScenario struct {
+	observe bool // outside the statement: outcomes are only counted (no reference, never a violation)
 	name    string
 	lim     int // index into limitCfgs
 	pre     []string
@@ -51,50 +52,60 @@ func th(name string, ops ...string) sthread {
 	return sthread{name: name, ops: ops, after: [2]int{-1, 0}, join: [2]int{-1, 0}}
 }
 
-func (t sthread) startedBy(thread, afterOps int) sthread { t.after = [2]int{thread, afterOps}; return t }
-func (t sthread) joinedBy(thread, beforeOp int) sthread  { t.join = [2]int{thread, beforeOp}; return t }
+func (t sthread) startedBy(thread, afterOps int) sthread {
+	t.after = [2]int{thread, afterOps}
+	return t
+}
+func (t sthread) joinedBy(thread, beforeOp int) sthread { t.join = [2]int{thread, beforeOp}; return t }
 
 // items: a0 (sponsor 0, exp 1), a1 (sponsor 0, exp 2), b2 (sponsor 1, exp 3), b3 (sponsor 1, exp 1)
 func sScenarios(thorough bool) []sScenario {
 	scs := []sScenario{
-		{"stream || add(streamed item) || expire", 6, []string{"add(a0)", "add(a1)"}, []sthread{
+		{false, "stream || add(streamed item) || expire", 6, []string{"add(a0)", "add(a1)"}, []sthread{
 			th("builder", "start-streaming", "stream(1)", "stream(1)", "finish(restore first handed out)"),
 			th("submit", "add(a0)", "add(b2)"),
 			th("expire", "setmin(2)"),
 		}},
-		{"builder with asynchronous prepare and finish || add", 6, []string{"add(a0)", "add(a1)", "add(b2)"}, []sthread{
+		{false, "builder with asynchronous prepare and finish || add", 6, []string{"add(a0)", "add(a1)", "add(b2)"}, []sthread{
 			th("builder", "start-streaming", "stream(1)", "stream(1)"),
 			th("prepare", "prepare(1)").startedBy(0, 2).joinedBy(0, 2),
 			th("finish", "finish(restore all handed out)").startedBy(0, 3),
 			th("submit", "add(a0)", "add(b3)"),
 		}},
-		{"prepare || stream, joined before finish", 6, []string{"add(a0)", "add(a1)", "add(b2)"}, []sthread{
+		{false, "prepare || stream, joined before finish", 6, []string{"add(a0)", "add(a1)", "add(b2)"}, []sthread{
 			th("builder", "start-streaming", "stream(1)", "stream(2)", "finish(restore all handed out)"),
 			th("prepare", "prepare(1)").startedBy(0, 2).joinedBy(0, 3),
 		}},
-		{"stream || remove || pop at the item limit", 4, []string{"add(a0)", "add(b2)", "add(a1)"}, []sthread{
+		{false, "stream || remove || pop at the item limit", 4, []string{"add(a0)", "add(b2)", "add(a1)"}, []sthread{
 			th("builder", "start-streaming", "stream(2)", "finish(restore all handed out)"),
 			th("remove", "remove(b2)", "add(b3)"),
 			th("pop", "pop"),
 		}},
-		{"finish(restore) || add at the sponsor limit", 3, []string{"add(a0)", "add(b2)"}, []sthread{
+		{false, "finish(restore) || add at the sponsor limit", 3, []string{"add(a0)", "add(b2)"}, []sthread{
 			th("builder", "start-streaming", "stream(2)", "finish(restore all handed out)"),
 			th("submit", "add(a1)", "add(b3)"),
 		}},
-		{"two submitters || expire (no stream)", 5, []string{"add(a0)"}, []sthread{
+		{false, "two submitters || expire (no stream)", 5, []string{"add(a0)"}, []sthread{
 			th("s1", "add(a1)", "add(b2)"),
 			th("s2", "add(b3)", "add(a1)"),
 			th("expire", "setmin(2)", "setmin(3)"),
 		}},
 	}
+	// OBSERVATION ONLY (liveness is not part of C23): the builder finishes a stream asynchronously; a second
+	// build that calls StartStreaming before that FinishStreaming has taken the pool lock holds the pool
+	// lock while waiting for the stream lock, and FinishStreaming then waits for the pool lock.
+	scs = append(scs, sScenario{observe: true, name: "second StartStreaming || asynchronous FinishStreaming of the previous build (observation only)", lim: 6, pre: []string{"add(a0)", "add(a1)"}, threads: []sthread{
+		th("builder", "start-streaming", "stream(1)", "start-streaming", "stream(1)", "finish(restore none)"),
+		th("finish", "finish(restore all handed out)").startedBy(0, 2),
+	}})
 	if thorough {
 		scs = append(scs,
-			sScenario{"two streams in a row || add || expire", 6, []string{"add(a0)", "add(a1)", "add(b2)"}, []sthread{
+			sScenario{false, "two streams in a row || add || expire", 6, []string{"add(a0)", "add(a1)", "add(b2)"}, []sthread{
 				th("builder", "start-streaming", "stream(2)", "finish(restore first handed out)", "start-streaming", "stream(1)", "finish(restore none)"),
 				th("submit", "add(a1)", "add(b3)"),
 				th("expire", "setmin(2)"),
 			}},
-			sScenario{"asynchronous prepare and finish || add || expire || pop", 6, []string{"add(a0)", "add(a1)", "add(b2)", "add(b3)"}, []sthread{
+			sScenario{false, "asynchronous prepare and finish || add || expire || pop", 6, []string{"add(a0)", "add(a1)", "add(b2)", "add(b3)"}, []sthread{
 				th("builder", "start-streaming", "stream(1)", "stream(1)"),
 				th("prepare", "prepare(1)").startedBy(0, 2).joinedBy(0, 2),
 				th("finish", "finish(restore first handed out)").startedBy(0, 3),
@@ -307,6 +318,22 @@ func runSchedules(r *evid.Run) {
 	bound := -1
 	for si, sc := range scs {
 		sc := sc
+		if sc.observe {
+			var o *sObs
+			dl, fin := 0, 0
+			ex := &vsched.Explorer{Body: sBody(sc, &o), MaxPreemptions: bound, MaxDeviations: -1, Stop: r.Expired,
+				Check: func(out *vsched.Outcome) (string, string) {
+					if out.Deadlock {
+						dl++
+					} else {
+						fin++
+					}
+					return "", ""
+				}}
+			ex.Run()
+			r.Cov["observation_outside_the_statement"] = fmt.Sprintf("%s: %d of %d explored schedules end in a deadlock (StartStreaming holds the pool lock while waiting for the stream lock), %d complete", sc.name, dl, dl+fin, fin)
+			continue
+		}
 		allowed, sv := sSequential(sc)
 		orders += len(allowed)
 		if sv != nil {
